@@ -1,40 +1,11 @@
-"""Per-property configuration for tools/check.py."""
+"""Per-property configuration for tools/check.py: one file per property in tools/props.d/Cxx.py,
+each defining a dict named CFG (see C36.py for the keys)."""
+import os, glob, runpy
 PROPS = {}
 NOT_APPLICABLE = {}
+# /repo commits that add cfg(inputlayer_verif) hooks
 HOOK_COMMITS = ['48037f1']
-
-PROPS['C36'] = dict(
-    props_file='Props/C36.v',
-    coq_targets=['Checks/C36.vo', 'Props/C36.vo'],
-    level_text='Theorems C36_no_false_negative / C36_lookup_exact / C36_remove_report hold for every filter size, hash count, hash function and '
-               'operation history (induction over the history, invariant: every stored key is covered by the filter and the entry table equals the '
-               'specification multiset). The model is tied to the code on every run by replaying random histories on BloomFilter/HashIndex and '
-               'comparing every answer and the final bit array with the model inside Coq.',
-    level_note='Trusted: Coq kernel, the harness printers, hooks exposing hash_pair/bits; SipHash is an input. The Gallina model is hand-written; '
-               'its agreement with the Rust code is checked by correspondence, not proved.',
-    bin='c36', n_quick=400, n_thorough=8000,
-    corr_name='Model/Bloom.v vs BloomFilter/HashIndex',
-    rule='random bloom histories (insert/clear/query over 2-12 keys, sizes {0,1,63,64,65,128,200,1000} bits, hash counts {0,1,2,3,7,32,40}) '
-         'and hash-index histories (insert/remove/build/get over mixed-kind tuples incl. NaN/-0.0/null keys, out-of-range key columns); '
-         'non-trivial = a query answered false (bloom) or a lookup returning tuples (index); distinct by full history text',
-    trusted_base=['hooks BloomFilter::verif_hash_pair / verif_words, HashIndex::verif_bloom (cfg inputlayer_verif) expose hashes and bit array',
-                  'SipHash (DefaultHasher) is an input to the model, not modelled'],
-    assumptions=['hash values are supplied by the implementation (any hash satisfies the theorems)'],
-)
-
-PROPS['C28'] = dict(
-    props_file='Props/C28.v', gen=['auth'],
-    coq_targets=['Checks/C28.vo', 'Props/C28.vo'],
-    level_text='Lattice, viewer-read-only and admin-only are proved by exhaustive case analysis over the statement-kind enum and the decision tables '
-               'that tools/translate.py regenerates from src/auth.rs on every run, so the theorems are about what the code says now; the finite domain '
-               '(every Statement/MetaCommand variant x every role) is in the statement. The translator is cross-checked against the real functions on every variant.',
-    level_note='Trusted: Coq kernel, tools/translate.py (cross-checked per run), the hand-written mutates/admin_only classification.',
-    technique='Coq proof over translator-regenerated decision tables (finite, exhaustive) + per-run cross-check of the translator against the real authorize_* functions',
-    bin='c28', n_quick=1, n_thorough=1, exhaustive=True,
-    corr_name='Gen/AuthTable.v (translator) vs authorize_statement/authorize_kg_operation',
-    rule='exhaustive: every Statement / MetaCommand variant (several payloads each) x every global role and KG role through the real '
-         'authorize_statement / authorize_kg_operation; non-trivial = a kind some role may and some role may not execute',
-    trusted_base=['tools/translate.py (Rust match tables -> Gen/AuthTable.v), cross-checked on every run against the real functions for every variant x role',
-                  'hand-written classification `mutates` / `admin_only` in coq/Props/C28.v'],
-    assumptions=['decisions are payload-independent (the translator rejects arms that inspect payloads; the harness varies payloads)'],
-)
+_d = os.path.join(os.path.dirname(os.path.abspath(__file__)), 'props.d')
+for _f in sorted(glob.glob(os.path.join(_d, 'C*.py'))):
+    _pid = os.path.basename(_f)[:-3]
+    PROPS[_pid] = runpy.run_path(_f)['CFG']
